@@ -84,7 +84,7 @@ def generate(tier, rng):
         for start in [t[0], dl[len(dl) // 2]]:
             st = gen.random_subset(rng, labs, rng.choice([0, 0.02, 0.1]))
             fo = gen.random_subset(rng, labs, rng.choice([0, 0.1, 0.5]))
-            m = rng.choice([None, 1, 2, 16, 17, 32, 33, 64, 65, h // 2, h, h + 1, 1000])
+            m = rng.choice([None, 1, 2, 16, 17, 32, 33, 64, 65, h // 2, h, h + 1, 1000] + ([255, 256, 257, 258, 259, h - 1, h - 2] if h > 256 else []))
             for k in KINDS:
                 yield _case(t, start, k, fo, st, m)
     nrand = 400 if tier == "quick" else 6000
